@@ -1108,6 +1108,8 @@ struct Battery {
     apis: Vec<Api>,
     /// a Build op that failed (mixed dimensions) changes nothing: skip the searches of that node
     skip_failed_build: bool,
+    /// compare the listing functions with the reference after every step
+    listings: bool,
 }
 struct Ctx<'a> {
     part: &'a str,
@@ -1135,9 +1137,21 @@ fn diagnose(e: &VectorEngine, w: World, ops: &[Op], model: &Model, api: Api, q: 
         }
         return format!("c06:cached-index:{}:{}", api.func(), f.kind);
     }
+    // 0. a filtered search that looked at one page of keys only? (which page depends on the store's hash order, so the
+    //    replays below may not reproduce it: decided on an engine without the bound)
+    if let (Some(b), Api::Filtered(..)) = (cfg.scan_bound(), api) {
+        if model.data.len() > b && matches!(f.kind, "too-few" | "not-top-k") {
+            let d = Lease::get(Cfg::Default, false);
+            if let Ok((m3, _)) = setup(&d, w, Cfg::Default, ops) {
+                if m3.data == model.data && judge(&run_api(&d, api, q, k), weak_for(api, &m3), &m3, api, q, k).is_none() {
+                    return "c06:scan-bound-truncates:search_similar_filtered".to_string();
+                }
+            }
+        }
+    }
     if let (Ok(true), Ok((m2, _))) = (guarded(|| reset_engine(e)), setup(e, w, cfg, ops)) {
-        // 1. is a stale cached index the cause?
-        if model.snap.is_some() {
+        // 1. is a stale cached index the cause? (the replay fails as well, and passes once the cache is dropped)
+        if model.snap.is_some() && judge(&run_api(e, api, q, k), weak_for(api, &m2), &m2, api, q, k).is_some() {
             e.invalidate_hnsw_cache(if w == World::Default { "_default" } else { COLL });
             if judge(&run_api(e, api, q, k), weak_for(api, &m2), &m2, api, q, k).is_none() {
                 let culprit = model.since_build.first().copied().unwrap_or("unknown");
@@ -1169,12 +1183,6 @@ fn diagnose(e: &VectorEngine, w: World, ops: &[Op], model: &Model, api: Api, q: 
         let d = Lease::get(Cfg::Default, false);
         if let Ok((m3, _)) = setup(&d, w, Cfg::Default, ops) {
             if judge(&run_api(&d, api, q, k), weak_for(api, &m3), &m3, api, q, k).is_none() {
-                // a filtered search that looked at one page of keys only
-                if let (Some(b), Api::Filtered(..)) = (cfg.scan_bound(), api) {
-                    if model.data.len() > b && matches!(f.kind, "too-few" | "not-top-k") {
-                        return "c06:scan-bound-truncates:search_similar_filtered".to_string();
-                    }
-                }
                 return format!("c06:cfg-{}:{}:{}:{}", cfg.name(), w.short(), api.func(), f.kind);
             }
         }
@@ -1239,61 +1247,68 @@ fn count_check(func: &'static str, got: usize, want: usize) -> Option<(&'static 
 fn listings(e: &VectorEngine, w: World, model: &Model, n: &mut u64) -> Option<(&'static str, Fail)> {
     let live: BTreeSet<&'static str> = model.data.keys().copied().collect();
     let cnt = live.len();
-    let mut tick = |r: Option<(&'static str, Fail)>| {
-        *n += 1;
-        r
-    };
+    macro_rules! tick {
+        ($e:expr) => {{
+            *n += 1;
+            if let Some(x) = $e {
+                return Some(x);
+            }
+        }};
+    }
     match w {
         World::Default => {
             let bound = model.cfg.scan_bound();
             let complete = bound.is_none_or(|b| cnt <= b);
-            tick(list_check("list_keys", &e.list_keys(), &live, model, complete, bound))?;
-            tick(list_check("list_keys_bounded", &e.list_keys_bounded(), &live, model, complete, bound))?;
-            tick(count_check("count", e.count(), cnt))?;
+            tick!(list_check("list_keys", &e.list_keys(), &live, model, complete, bound));
+            tick!(list_check("list_keys_bounded", &e.list_keys_bounded(), &live, model, complete, bound));
+            tick!(count_check("count", e.count(), cnt));
             for k in KEYS {
-                tick((e.exists(k) != live.contains(k)).then(|| ("exists", Fail { kind: "differs", msg: format!("exists({k}) = {}", e.exists(k)) })))?;
+                tick!((e.exists(k) != live.contains(k)).then(|| ("exists", Fail { kind: "differs", msg: format!("exists({k}) = {}", e.exists(k)) })));
             }
             let mut union: Vec<String> = vec![];
-            for (skip, limit) in [(0usize, Some(1usize)), (1, Some(1)), (2, Some(1)), (3, Some(1)), (0, Some(2)), (1, Some(2)), (1, None), (0, Some(cnt + 1))] {
-                let page = e.list_keys_paginated(Pagination { skip, limit, count_total: true });
-                tick(list_check("list_keys_paginated", &page.items, &live, model, false, limit))?;
+            for (skip, limit) in [(0usize, Some(1usize)), (1, Some(1)), (2, Some(1)), (1, Some(2)), (1, None), (0, Some(cnt + 1))] {
+                let with_total = skip == 0;
+                let page = e.list_keys_paginated(Pagination { skip, limit, count_total: with_total });
+                tick!(list_check("list_keys_paginated", &page.items, &live, model, false, limit));
                 if bound.is_none() {
                     let want = cnt.saturating_sub(skip).min(limit.unwrap_or(usize::MAX));
-                    tick((page.items.len() != want).then(|| ("list_keys_paginated", Fail { kind: "page-size", msg: format!("skip={skip} limit={limit:?}: {:?} of {live:?}", page.items) })))?;
+                    tick!((page.items.len() != want).then(|| ("list_keys_paginated", Fail { kind: "page-size", msg: format!("skip={skip} limit={limit:?}: {:?} of {live:?}", page.items) })));
                 }
-                tick((page.total_count != Some(cnt)).then(|| ("list_keys_paginated", Fail { kind: "count-differs", msg: format!("total_count = {:?}, {cnt} embeddings are stored", page.total_count) })))?;
+                if with_total {
+                    tick!((page.total_count != Some(cnt)).then(|| ("list_keys_paginated", Fail { kind: "count-differs", msg: format!("total_count = {:?}, {cnt} embeddings are stored", page.total_count) })));
+                }
                 if limit == Some(1) {
                     union.extend(page.items);
                 }
             }
-            if bound.is_none() {
-                // the one-key pages at skip 0..3 together are the whole key set
-                tick(list_check("list_keys_paginated", &union, &live, model, true, None))?;
+            if bound.is_none() && cnt <= 3 {
+                // the one-key pages at skip 0, 1, 2 together are the whole key set
+                tick!(list_check("list_keys_paginated", &union, &live, model, true, None));
             }
             let tagged: BTreeSet<&'static str> = model.data.iter().filter(|(_, (_, t))| *t == Some("x")).map(|(k, _)| *k).collect();
             let matching = e.list_keys_matching(&Filt::TagX.cond());
-            tick(list_check("list_keys_matching", &matching, &tagged, model, complete, None))?;
+            tick!(list_check("list_keys_matching", &matching, &tagged, model, complete, None));
             if complete {
-                tick(count_check("count_matching", e.count_matching(&Filt::TagX.cond()), tagged.len()))?;
+                tick!(count_check("count_matching", e.count_matching(&Filt::TagX.cond()), tagged.len()));
             }
             let dim = e.dimension();
-            tick((dim.is_none() != live.is_empty() || dim.is_some_and(|d| !model.data.values().any(|(v, _)| v.len() == d))).then(|| ("dimension", Fail { kind: "differs", msg: format!("dimension() = {dim:?}") })))?;
+            tick!((dim.is_none() != live.is_empty() || dim.is_some_and(|d| !model.data.values().any(|(v, _)| v.len() == d))).then(|| ("dimension", Fail { kind: "differs", msg: format!("dimension() = {dim:?}") })));
         }
         World::Named(_) => {
-            tick(list_check("list_collection_keys", &e.list_collection_keys(COLL), &live, model, true, None))?;
-            tick(count_check("collection_count", e.collection_count(COLL), cnt))?;
+            tick!(list_check("list_collection_keys", &e.list_collection_keys(COLL), &live, model, true, None));
+            tick!(count_check("collection_count", e.collection_count(COLL), cnt));
             for k in KEYS {
-                tick((e.exists_in_collection(COLL, k) != live.contains(k)).then(|| ("exists_in_collection", Fail { kind: "differs", msg: format!("exists_in_collection({k}) = {}", e.exists_in_collection(COLL, k)) })))?;
+                tick!((e.exists_in_collection(COLL, k) != live.contains(k)).then(|| ("exists_in_collection", Fail { kind: "differs", msg: format!("exists_in_collection({k}) = {}", e.exists_in_collection(COLL, k)) })));
             }
         }
         World::Entity => {
             let bound = model.cfg.scan_bound();
-            tick(list_check("scan_entities_with_embeddings", &e.scan_entities_with_embeddings(), &live, model, bound.is_none(), bound))?;
+            tick!(list_check("scan_entities_with_embeddings", &e.scan_entities_with_embeddings(), &live, model, bound.is_none(), bound));
             if bound.is_none() {
-                tick(count_check("count_entities_with_embeddings", e.count_entities_with_embeddings(), cnt))?;
+                tick!(count_check("count_entities_with_embeddings", e.count_entities_with_embeddings(), cnt));
             }
             for k in KEYS {
-                tick((e.entity_has_embedding(k) != live.contains(k)).then(|| ("entity_has_embedding", Fail { kind: "differs", msg: format!("entity_has_embedding({k}) = {}", e.entity_has_embedding(k)) })))?;
+                tick!((e.entity_has_embedding(k) != live.contains(k)).then(|| ("entity_has_embedding", Fail { kind: "differs", msg: format!("entity_has_embedding({k}) = {}", e.entity_has_embedding(k)) })));
             }
         }
     }
@@ -1388,7 +1403,7 @@ fn node_inner(ctx: &Ctx, ops: &[Op], acc: &mut Acc, e: &VectorEngine, diag: &Vec
     if let Some(f) = readback(e, w, &model) {
         acc.violation(format!("c06:readback:{}:{}", w.short(), f.kind), ops.len(), format!("after {:?}: {}", ops, f.msg), json!({"part": ctx.part, "world": w.name(), "cfg": cfg.name(), "ops": ops.iter().map(Op::to_json).collect::<Vec<_>>(), "api": "readback"}));
     }
-    if let Some((func, f)) = listings(e, w, &model, &mut acc.listings) {
+    if let Some((func, f)) = if ctx.battery.listings { listings(e, w, &model, &mut acc.listings) } else { None } {
         acc.violation(format!("c06:listing:{func}:{}", f.kind), ops.len(), format!("after {:?}: {}", ops, f.msg), json!({"part": ctx.part, "world": w.name(), "cfg": cfg.name(), "ops": ops.iter().map(Op::to_json).collect::<Vec<_>>(), "api": "listing"}));
     }
     if ctx.battery.skip_failed_build && matches!(ops.last(), Some(Op::Build)) && !last_ok {
@@ -1824,9 +1839,10 @@ fn x_model(e: &VectorEngine, vectors: &[Vec<f32>]) -> Result<Model, String> {
 }
 fn part_user_index(plan: &[(Vec<Vec<f32>>, usize)]) -> Acc {
     let mut sets: Vec<Vec<Vec<f32>>> = vec![];
-    for (vectors, max_size) in plan {
-        for s in 0..=*max_size {
-            sets.extend(multisets(vectors.len(), s).into_iter().filter(|m| s > 0 || sets.is_empty() || !m.is_empty()).map(|m| m.iter().map(|i| vectors[*i].clone()).collect::<Vec<_>>()));
+    for (pi, (vectors, max_size)) in plan.iter().enumerate() {
+        // the empty store once
+        for s in usize::from(pi > 0)..=*max_size {
+            sets.extend(multisets(vectors.len(), s).into_iter().map(|m| m.iter().map(|i| vectors[*i].clone()).collect::<Vec<_>>()));
         }
     }
     let accs: Vec<Acc> = sets
@@ -2079,10 +2095,60 @@ fn alphabet_filter(keys: &[&'static str]) -> Vec<Op> {
     a
 }
 
+/// Part M: metadata mutators between stores
+fn alphabet_meta() -> Vec<Op> {
+    vec![
+        Op::StoreMeta("a", v2(1, 0), "y"),
+        Op::StoreMeta("a", v2(1, 1), "x"),
+        Op::StoreMeta("b", v2(1, 1), "x"),
+        Op::StoreMeta("b", v2(-1, 1), "y"),
+        Op::Store("b", v2(1, 0)),
+        Op::SetTag("a", "x"),
+        Op::SetTag("a", "y"),
+        Op::SetTag("b", "x"),
+        Op::DropTag("a"),
+        Op::DropTag("b"),
+        Op::Delete("a"),
+        Op::Build,
+    ]
+}
+/// Part N: entity embeddings
+fn alphabet_entity() -> Vec<Op> {
+    vec![
+        Op::Store("a", v2(1, 0)),
+        Op::Store("a", v2(1, 1)),
+        Op::Store("a", vec![1.0, 0.0, 0.0]),
+        Op::Store("b", v2(1, 0)),
+        Op::Store("b", v2(1, 1)),
+        Op::Store("b", v2(-1, 1)),
+        Op::Delete("a"),
+        Op::Delete("b"),
+        Op::Noise,
+    ]
+}
+/// Part P: persistence as a store path
+fn alphabet_persist() -> Vec<Op> {
+    vec![Op::Store("a", v2(1, 0)), Op::Store("a", v2(1, 1)), Op::StoreMeta("b", v2(1, 1), "x"), Op::Delete("a"), Op::Build, Op::Save, Op::Load(false), Op::Load(true), Op::Clear]
+}
+/// the part of the default alphabet a scan bound of 2 matters for, small enough for one more level
+fn alphabet_scan() -> Vec<Op> {
+    vec![
+        Op::Store("a", v2(1, 0)),
+        Op::Store("b", v2(1, 1)),
+        Op::Store("b", vec![1.0, 0.0, 0.0]),
+        Op::Delete("a"),
+        Op::Build,
+        Op::Clear,
+        Op::StoreMeta("a", v2(1, 1), "x"),
+        Op::BatchStore(vec![("a", v2(-1, 1)), ("b", v2(1, 0))]),
+        Op::BatchDelete(vec!["a", "b"]),
+    ]
+}
+
 fn report_part(rep: &mut Report, name: &str, acc: &Acc, extra: Value) {
     let mut v = json!({
         "nodes": acc.nodes, "searches_checked": acc.searches, "checked_against_exact_oracle": acc.exact_checks, "checked_against_index_oracle": acc.weak_checks,
-        "readbacks": acc.readbacks, "distinct_model_states": acc.states.len(), "states_with_2plus_candidates": acc.nontrivial_states.len(),
+        "readbacks": acc.readbacks, "listings_compared": acc.listings, "distinct_model_states": acc.states.len(), "states_with_2plus_candidates": acc.nontrivial_states.len(),
         "searches_with_2plus_candidates": acc.nontrivial_searches, "stored_sparse": acc.sparse_stored, "stored_dense": acc.dense_stored, "index_builds_ok": acc.builds_ok,
         "violating_cases_by_signature": acc.viol.iter().map(|(k, v)| (k.clone(), json!(v.0))).collect::<serde_json::Map<_, _>>(),
     });
@@ -2098,6 +2164,270 @@ fn report_part(rep: &mut Report, name: &str, acc: &Acc, extra: Value) {
     if let Some(m) = &acc.machinery {
         rep.machinery(m.clone());
     }
+}
+
+/// vacuity figures of one sequence part
+struct PartStat {
+    builds_ok: u64,
+    weak_checks: u64,
+    states: usize,
+    parallel_capable: u64,
+}
+#[allow(clippy::too_many_arguments)]
+fn run_seq(rep: &mut Report, all: &mut Acc, lap: &mut dyn FnMut() -> f64, name: &str, part: &str, w: World, cfg: Cfg, b: &Battery, alpha: &[Op], depth: usize) -> PartStat {
+    let a = explore(&Ctx { part, world: w, cfg, battery: b }, alpha, depth);
+    report_part(rep, name, &a, json!({"world": w.name(), "engine_config": cfg.name(), "depth": depth, "alphabet": alpha.len(), "queries": b.queries.len(), "apis": b.apis.iter().map(|x| x.name()).collect::<Vec<_>>(), "wall_s": lap()}));
+    let st = PartStat { builds_ok: a.builds_ok, weak_checks: a.weak_checks, states: a.states.len(), parallel_capable: a.nontrivial_searches };
+    all.merge(a);
+    st
+}
+
+fn explore_all(rep: &mut Report, thorough: bool) {
+    let mut all = Acc::default();
+    let g2 = grid(2);
+    let g3 = grid(3);
+    let mut gridv: Vec<Vec<f32>> = g2.clone();
+    gridv.extend(g3.clone());
+    let mut all_q = nonzero(g2.clone());
+    all_q.extend(nonzero(g3.clone()));
+    let mut few_q = nonzero(g2.clone());
+    few_q.extend([vec![1.0, 0.0, 0.0], vec![-1.0, 1.0, 1.0], vec![0.0, 1.0, -1.0], vec![1.0, 1.0, 1.0]]);
+
+    let mut t0 = std::time::Instant::now();
+    let mut lap = move || {
+        let d = t0.elapsed().as_secs_f64();
+        t0 = std::time::Instant::now();
+        (d * 10.0).round() / 10.0
+    };
+    // ---- R: default configuration, then the two configurations that move the dense/sparse boundary
+    for (cfg, r_dim) in [(Cfg::Default, if thorough { 5 } else { 4 }), (Cfg::SparseAll, if thorough { 4 } else { 3 }), (Cfg::SparseNone, if thorough { 4 } else { 3 })] {
+        let (r, rejected) = part_readback(cfg, r_dim);
+        report_part(rep, &format!("R_readback_{}", cfg.name()), &r, json!({"engine_config": cfg.name(), "max_dim": r_dim, "vectors": r.nodes, "rejected_by_store": rejected, "wall_s": lap()}));
+        match cfg {
+            Cfg::Default if r.sparse_stored == 0 || r.dense_stored == 0 => rep.machinery("vacuous: read-back did not reach both representations"),
+            Cfg::SparseAll if r.dense_stored != 0 || r.sparse_stored == 0 => rep.machinery("vacuous: sparse_threshold=0 did not force the sparse representation"),
+            Cfg::SparseNone if r.dense_stored == 0 => rep.machinery("vacuous: sparse_threshold=1 stored nothing dense"),
+            _ => {}
+        }
+        all.merge(r);
+    }
+
+    // ---- E: (world, configuration, sizes, queries)
+    let d_apis = vec![Api::Similar, Api::Metric(M::Cos), Api::Metric(M::Dot), Api::Metric(M::Euc), Api::Filtered(Filt::True, Strat::Auto)];
+    let n_apis = vec![Api::InColl, Api::FilteredColl(Filt::True, Strat::Pre), Api::FilteredColl(Filt::True, Strat::Auto)];
+    let mut e_plan: Vec<(World, Cfg, usize, usize, bool)> = vec![]; // world, configuration, min size, max size, all queries?
+    if thorough {
+        e_plan.push((World::Default, Cfg::Default, 0, 3, true));
+        e_plan.push((World::Default, Cfg::Default, 4, 4, false));
+        for m in [M::Cos, M::Dot, M::Euc] {
+            e_plan.push((World::Named(m), Cfg::Default, 0, 2, true));
+            e_plan.push((World::Named(m), Cfg::Default, 3, 3, false));
+        }
+        e_plan.push((World::Default, Cfg::Par2, 0, 3, true));
+        e_plan.push((World::Default, Cfg::SparseAll, 0, 3, false));
+        e_plan.push((World::Default, Cfg::Combo, 0, 3, false));
+        e_plan.push((World::Named(M::Dot), Cfg::SparseAll, 0, 2, false));
+    } else {
+        e_plan.push((World::Default, Cfg::Default, 0, 2, true));
+        e_plan.push((World::Default, Cfg::Default, 3, 3, false));
+        for m in [M::Cos, M::Dot, M::Euc] {
+            e_plan.push((World::Named(m), Cfg::Default, 0, 2, false));
+        }
+        e_plan.push((World::Default, Cfg::Par2, 0, 2, false));
+        e_plan.push((World::Default, Cfg::SparseAll, 0, 2, false));
+    }
+    let mut e_nontrivial = 0;
+    let mut e_builds = 0;
+    for (w, cfg, lo, hi, allq) in e_plan {
+        let b = Battery { queries: if allq { all_q.clone() } else { few_q.clone() }, apis: if w == World::Default { d_apis.clone() } else { n_apis.clone() }, skip_failed_build: true, listings: thorough || hi <= 2 };
+        let e = part_sets(&Ctx { part: "E", world: w, cfg, battery: &b }, &gridv, lo, hi);
+        let cfg_tag = if cfg == Cfg::Default { String::new() } else { format!("_{}", cfg.name()) };
+        report_part(rep, &format!("E_sets_{}{}_size{}to{}", w.name().replace(':', "_"), cfg_tag, lo, hi), &e, json!({"engine_config": cfg.name(), "vector_alphabet": gridv.len(), "queries": b.queries.len(), "wall_s": lap()}));
+        if cfg == Cfg::Default {
+            e_nontrivial += e.nontrivial_states.len();
+            e_builds += e.builds_ok;
+        }
+        all.merge(e);
+        if cfg != Cfg::Default {
+            drain_pool(cfg);
+        }
+    }
+    if e_nontrivial < 100 || e_builds < 100 {
+        rep.machinery("vacuous: part E reached too few non-trivial states");
+    }
+
+    // ---- S: default configuration
+    let s_apis = vec![Api::Similar, Api::Metric(M::Dot), Api::Metric(M::Euc), Api::Filtered(Filt::True, Strat::Auto), Api::Filtered(Filt::TagX, Strat::Auto), Api::Filtered(Filt::TagX, Strat::Pre)];
+    let s_q = vec![v2(1, 0), v2(0, 1), v2(1, 1), v2(-1, 1), vec![1.0, 0.0, 0.0]];
+    // quick: the listings are compared in the depth-3 run over the same alphabet below
+    let b = Battery { queries: s_q.clone(), apis: s_apis.clone(), skip_failed_build: false, listings: thorough };
+    let s_depth = if thorough { 5 } else { 4 };
+    let full = alphabet_default(&KEYS[..2], false);
+    let mut alpha = full.clone();
+    if thorough {
+        // depth 5 runs over 13 of the 15 ops; the two dropped ones stay in the depth-4 runs below
+        alpha.retain(|o| *o != Op::BatchDelete(KEYS[..2].to_vec()) && *o != Op::Store("b", vec![1.0, 0.0, 0.0]));
+        run_seq(rep, &mut all, &mut lap, "S_sequences_default_depth4_full_alphabet", "S4", World::Default, Cfg::Default, &b, &full, 4);
+    }
+    let st = run_seq(rep, &mut all, &mut lap, "S_sequences_default", "S", World::Default, Cfg::Default, &b, &alpha, s_depth);
+    if st.builds_ok == 0 || st.weak_checks == 0 || st.states < 50 {
+        rep.machinery("vacuous: part S never searched through a cached index or reached too few states");
+    }
+    if thorough {
+        let alpha = alphabet_default(&KEYS[..2], true);
+        run_seq(rep, &mut all, &mut lap, "S_sequences_default_with_zero_vector", "S0", World::Default, Cfg::Default, &b, &alpha, 4);
+        let alpha = alphabet_default(&KEYS[..3], false);
+        run_seq(rep, &mut all, &mut lap, "S_sequences_default_3keys", "S3", World::Default, Cfg::Default, &b, &alpha, 4);
+    }
+    // the remaining default-collection search variants (cosine through the metric entry point, every page shape)
+    let more_apis = vec![Api::Metric(M::Cos), Api::Filtered(Filt::TagX, Strat::Post), Api::Paged(0, Some(1)), Api::Paged(1, Some(1)), Api::Paged(1, Some(2)), Api::Paged(0, Some(3)), Api::Paged(1, None), Api::Paged(2, None)];
+    let bm = Battery { queries: s_q.clone(), apis: more_apis.clone(), skip_failed_build: false, listings: true };
+    run_seq(rep, &mut all, &mut lap, "S_sequences_default_more_search_variants", "S", World::Default, Cfg::Default, &bm, &full, if thorough { 4 } else { 3 });
+
+    // ---- S again on engines built with non-default configurations: (configuration, alphabet, depth, search variants)
+    let every_api: Vec<Api> = s_apis.iter().chain(more_apis.iter()).copied().collect();
+    let scan_alpha = alphabet_scan();
+    let full3 = alphabet_default(&KEYS[..3], false);
+    let mut c_plan: Vec<(Cfg, &str, &[Op], usize, Vec<Api>)> = vec![];
+    if thorough {
+        for cfg in [Cfg::Par2, Cfg::Scan2, Cfg::Scan1, Cfg::MaxDim2, Cfg::SparseAll, Cfg::SparseNone, Cfg::BatchPar2, Cfg::Timeout, Cfg::Combo] {
+            c_plan.push((cfg, "2keys", &full, 4, every_api.clone()));
+        }
+        // three keys: a page of two is a proper part of the store
+        c_plan.push((Cfg::Scan2, "3keys", &full3, 3, every_api.clone()));
+        c_plan.push((Cfg::Scan2, "scan_alphabet", &scan_alpha, 5, vec![Api::Similar, Api::Metric(M::Euc), Api::Filtered(Filt::TagX, Strat::Pre), Api::Paged(1, Some(1))]));
+        c_plan.push((Cfg::Par2, "3keys", &full3, 3, every_api.clone()));
+    } else {
+        c_plan.push((Cfg::Par2, "2keys", &full, 3, vec![Api::Similar, Api::Metric(M::Cos), Api::Metric(M::Dot), Api::Metric(M::Euc), Api::Filtered(Filt::True, Strat::Auto), Api::Filtered(Filt::TagX, Strat::Post), Api::Paged(1, Some(2))]));
+        c_plan.push((Cfg::Scan1, "2keys", &full, 3, vec![Api::Similar, Api::Filtered(Filt::TagX, Strat::Auto), Api::Filtered(Filt::TagX, Strat::Pre), Api::Filtered(Filt::TagX, Strat::Post), Api::Paged(0, Some(1))]));
+        c_plan.push((Cfg::Scan2, "scan_alphabet", &scan_alpha, 4, vec![Api::Similar, Api::Metric(M::Euc), Api::Filtered(Filt::TagX, Strat::Pre), Api::Paged(1, Some(1))]));
+        c_plan.push((Cfg::MaxDim2, "2keys", &full, 3, vec![Api::Similar, Api::Metric(M::Dot), Api::Filtered(Filt::TagX, Strat::Auto)]));
+        c_plan.push((Cfg::SparseAll, "2keys", &full, 3, vec![Api::Similar, Api::Metric(M::Dot), Api::Metric(M::Euc), Api::Filtered(Filt::TagX, Strat::Pre)]));
+        c_plan.push((Cfg::SparseNone, "2keys", &full, 2, vec![Api::Similar, Api::Metric(M::Dot), Api::Metric(M::Euc), Api::Filtered(Filt::TagX, Strat::Pre)]));
+        c_plan.push((Cfg::BatchPar2, "2keys", &full, 3, vec![Api::Similar, Api::Metric(M::Euc)]));
+        c_plan.push((Cfg::Timeout, "2keys", &full, 2, every_api.clone()));
+    }
+    for (cfg, tag, alpha, depth, apis) in c_plan {
+        let b = Battery { queries: s_q.clone(), apis, skip_failed_build: false, listings: true };
+        let st = run_seq(rep, &mut all, &mut lap, &format!("S_sequences_default_cfg_{}_{}", cfg.name(), tag), "S", World::Default, cfg, &b, alpha, depth);
+        if st.parallel_capable == 0 || st.builds_ok == 0 {
+            rep.machinery(format!("vacuous: configuration {} never searched two stored vectors or never built an index", cfg.name()));
+        }
+        drain_pool(cfg);
+    }
+
+    // ---- F
+    let fq = vec![v2(1, 0), v2(0, 1), v2(-1, 1)];
+    let f_depth = if thorough { 5 } else { 4 };
+    let alpha = alphabet_filter(&KEYS);
+    let mut f_plan: Vec<(World, Cfg, usize)> = vec![(World::Default, Cfg::Default, f_depth), (World::Named(M::Cos), Cfg::Default, 4)];
+    // four keys under a scan bound of two, and post-filtering over the parallel search
+    let f_cfg_depth = if thorough { 4 } else { 3 };
+    f_plan.push((World::Default, Cfg::Scan2, f_cfg_depth));
+    f_plan.push((World::Default, Cfg::Par2, f_cfg_depth));
+    for (w, cfg, depth) in f_plan {
+        let mut f_apis = vec![];
+        for fl in [Filt::TagX, Filt::True] {
+            for st in [Strat::Auto, Strat::Pre, Strat::Post] {
+                f_apis.push(if w == World::Default { Api::Filtered(fl, st) } else { Api::FilteredColl(fl, st) });
+            }
+        }
+        let b = Battery { queries: fq.clone(), apis: f_apis, skip_failed_build: false, listings: thorough || cfg != Cfg::Default };
+        let cfg_tag = if cfg == Cfg::Default { String::new() } else { format!("_cfg_{}", cfg.name()) };
+        run_seq(rep, &mut all, &mut lap, &format!("F_filter_{}{}", w.name().replace(':', "_"), cfg_tag), "F", w, cfg, &b, &alpha, depth);
+        if cfg != Cfg::Default {
+            drain_pool(cfg);
+        }
+    }
+
+    // ---- M: metadata changed in place between filtered searches
+    let m_apis = vec![Api::Similar, Api::Filtered(Filt::TagX, Strat::Auto), Api::Filtered(Filt::TagX, Strat::Pre), Api::Filtered(Filt::TagX, Strat::Post), Api::Filtered(Filt::True, Strat::Auto)];
+    let b = Battery { queries: fq.clone(), apis: m_apis, skip_failed_build: false, listings: true };
+    let st = run_seq(rep, &mut all, &mut lap, "M_metadata_mutators", "M", World::Default, Cfg::Default, &b, &alphabet_meta(), if thorough { 4 } else { 3 });
+    if st.weak_checks == 0 {
+        rep.machinery("vacuous: part M never searched through a cached index");
+    }
+
+    // ---- C
+    let c_apis = vec![Api::InColl, Api::FilteredColl(Filt::True, Strat::Auto), Api::FilteredColl(Filt::TagX, Strat::Auto), Api::FilteredColl(Filt::TagX, Strat::Pre), Api::FilteredColl(Filt::TagX, Strat::Post)];
+    let c_q = vec![v2(1, 0), v2(0, 1), v2(-1, 1), vec![1.0, 0.0, 0.0]];
+    let b = Battery { queries: c_q.clone(), apis: c_apis, skip_failed_build: false, listings: true };
+    let alpha = alphabet_named(&KEYS[..2]);
+    for m in [M::Cos, M::Dot, M::Euc] {
+        // quick: the full depth for cosine, one level less for the other two metrics (same code but for the score)
+        let depth = match (thorough, m) {
+            (true, M::Cos) => 5,
+            (true, _) | (false, M::Cos) => 4,
+            (false, _) => 3,
+        };
+        let st = run_seq(rep, &mut all, &mut lap, &format!("C_sequences_named_{}", m.name()), "C", World::Named(m), Cfg::Default, &b, &alpha, depth);
+        if st.builds_ok == 0 || st.weak_checks == 0 {
+            rep.machinery("vacuous: part C never searched through a cached index");
+        }
+    }
+    // collections on the configurations their store path reads (max_dimension, sparse_threshold) and with a deadline set
+    for cfg in [Cfg::MaxDim2, Cfg::SparseAll, Cfg::Timeout] {
+        run_seq(rep, &mut all, &mut lap, &format!("C_sequences_named_dot_cfg_{}", cfg.name()), "C", World::Named(M::Dot), cfg, &b, &alpha, if thorough { 3 } else { 2 });
+        drain_pool(cfg);
+    }
+
+    // ---- N: entity embeddings
+    let n_q = vec![v2(1, 0), v2(1, 1), v2(-1, 1), vec![1.0, 0.0, 0.0]];
+    let b = Battery { queries: n_q, apis: vec![Api::Entities, Api::EntPaged(0, Some(1)), Api::EntPaged(1, Some(2)), Api::EntPaged(1, None)], skip_failed_build: false, listings: true };
+    for cfg in [Cfg::Default, Cfg::Scan2, Cfg::SparseAll] {
+        let depth = match (thorough, cfg) {
+            (true, Cfg::Default) => 5,
+            (true, _) => 4,
+            (false, _) => 3,
+        };
+        let st = run_seq(rep, &mut all, &mut lap, &format!("N_entity_embeddings_cfg_{}", cfg.name()), "N", World::Entity, cfg, &b, &alphabet_entity(), depth);
+        if st.parallel_capable == 0 {
+            rep.machinery("vacuous: part N never searched two entity embeddings");
+        }
+        if cfg != Cfg::Default {
+            drain_pool(cfg);
+        }
+    }
+
+    // ---- P: persistence as a store path
+    let alpha = alphabet_persist();
+    let b = Battery { queries: fq.clone(), apis: vec![Api::Similar, Api::Metric(M::Euc), Api::Filtered(Filt::TagX, Strat::Auto)], skip_failed_build: false, listings: true };
+    run_seq(rep, &mut all, &mut lap, "P_persistence_default", "P", World::Default, Cfg::Default, &b, &alpha, if thorough { 5 } else { 3 });
+    let b = Battery { queries: fq.clone(), apis: vec![Api::InColl, Api::FilteredColl(Filt::TagX, Strat::Auto)], skip_failed_build: false, listings: true };
+    run_seq(rep, &mut all, &mut lap, "P_persistence_named_dot", "P", World::Named(M::Dot), Cfg::Default, &b, &alpha, if thorough { 4 } else { 3 });
+
+    // ---- X: indexes held by the caller
+    let x_plan = if thorough { vec![(g2.clone(), 4), (g3.clone(), 3)] } else { vec![(g2.clone(), 3), (g3.clone(), 2)] };
+    let x = part_user_index(&x_plan);
+    report_part(rep, "X_caller_held_indexes", &x, json!({"max_vectors_dim2": x_plan[0].1, "max_vectors_dim3": x_plan[1].1, "variants": XAPIS.iter().map(|x| x.name()).collect::<Vec<_>>(), "wall_s": lap()}));
+    if x.builds_ok == 0 || x.nontrivial_searches == 0 {
+        rep.machinery("vacuous: part X built no index");
+    }
+    all.merge(x);
+
+    // ---- H
+    let (h2, h3) = if thorough { (5, 3) } else { (4, 2) };
+    let h = part_hnsw(h2, h3);
+    report_part(rep, "H_hnsw_index", &h, json!({"max_inserts_dim2": h2, "max_inserts_dim3": h3, "wall_s": lap()}));
+    all.merge(h);
+
+    for (sig, (n, arts)) in &all.viol {
+        if *n > 0 && arts.is_empty() {
+            rep.machinery(format!("{n} cases of {sig} were seen on pooled engines only, none on a brand-new engine"));
+        }
+        for (_, msg, replay) in arts {
+            rep.violation(sig.clone(), msg.clone(), replay.clone());
+        }
+    }
+    rep.set("violating_cases_by_signature", json!(all.viol.iter().map(|(k, v)| (k.clone(), json!(v.0))).collect::<serde_json::Map<_, _>>()));
+    rep.set("nodes_not_confirmed_on_new_engine_by_signature", json!(all.unconfirmed));
+    rep.set("engine_configurations", json!(Cfg::ALL.iter().map(|c| (c.name().to_string(), json!(format!("{:?}", c.config())))).collect::<serde_json::Map<_, _>>()));
+    rep.add("states", all.states.len() as u64);
+    rep.add("transitions", all.nodes);
+    rep.add("traces_validated_against_impl", all.nodes);
+    rep.add("evaluations", all.searches + all.readbacks + all.listings);
+    rep.add("distinct_nontrivial", all.nontrivial_states.len() as u64);
+    rep.set("explanation", json!("no separate model: every op and every search ran the real VectorEngine/HNSWIndex; reference = BTreeMap of stored vectors + f64 score recomputation"));
 }
 
 fn main() {
@@ -2127,149 +2457,18 @@ fn main() {
     rep.assume("euclidean score is 1/(1+distance) as documented on search_similar_with_metric; ties within 1e-6 may appear in any order; scores compared within 1e-5");
     rep.assume("a named collection's chosen metric is VectorCollectionConfig::distance_metric (cosine when the collection has no configuration)");
     rep.assume("with a cached index and a query of another dimension no score is defined, so any returned key is a violation");
+    rep.rule("configurations: every VectorEngineConfig field that switches a code path gets an engine built with a value that fires on tiny stores (parallel_threshold=2, max_keys_per_scan=2 and 1, max_dimension=2, sparse_threshold=0 and 1, batch_parallel_threshold=2, search_timeout=1h, all at once); parts R, E, S, F, C, N run again on those engines with the same oracles");
+    rep.rule("M / N / P: every op sequence <= depth over metadata mutators (update_metadata, remove_metadata_field), entity embeddings (set/remove_entity_embedding, search_entities[_paginated]) and persistence (save_index[_binary], load_index[_binary]) with the same search battery");
+    rep.rule("pages: search_*_paginated(q, k, skip, limit) must be positions skip.. of a correct ranking cut at min(k, skip+limit): right size, live keys, true scores, and the vector at rank r carries the r-th best true score");
+    rep.rule("listings after every step: list_keys[_bounded], count, exists, list_keys_paginated (8 page shapes), list_keys_matching, count_matching, dimension, list_collection_keys, collection_count, exists_in_collection, scan/count_entities_with_embeddings, entity_has_embedding: only live (matching) keys, none twice, complete unless max_keys_per_scan cuts the listing");
+    rep.rule("X: every multiset of <=S grid vectors, every index the caller can build and hold (build_hnsw_index / _with_options(auto) / _default, build_ivf_index(default, flat 2)), searched with search_with_hnsw / search_with_hnsw_and_metric / search_with_ivf / search_with_ivf_nprobe right after the build: index oracle");
+    rep.assume("max_keys_per_scan: list_keys*, clear and index builds are documented to work on one page of keys (the model follows the page clear() chose); searches are not: search_similar* and search_similar_filtered must stay exact. search_entities carries the bound explicitly in its code and is outside the property's quantifier (default and named collections): on such engines only the index oracle (live keys, true scores, order, <= k) is applied to it");
+    rep.assume("a query longer than max_dimension may be answered with an error (documented); VectorEngineConfig::default_metric and default_dimension are read by no code path and have no configuration here");
+    rep.assume("search_with_hnsw_and_metric(Cosine) reports (cos+1)/2 as documented on ExtendedDistanceMetric::to_similarity; IVF-flat and Euclidean report 1/(1+distance)");
 
-    let mut all = Acc::default();
-    let g2 = grid(2);
-    let g3 = grid(3);
-    let mut gridv: Vec<Vec<f32>> = g2.clone();
-    gridv.extend(g3.clone());
-    let mut all_q = nonzero(g2.clone());
-    all_q.extend(nonzero(g3.clone()));
-    let mut few_q = nonzero(g2.clone());
-    few_q.extend([vec![1.0, 0.0, 0.0], vec![-1.0, 1.0, 1.0], vec![0.0, 1.0, -1.0], vec![1.0, 1.0, 1.0]]);
-
-    let mut t0 = std::time::Instant::now();
-    let mut lap = move || {
-        let d = t0.elapsed().as_secs_f64();
-        t0 = std::time::Instant::now();
-        (d * 10.0).round() / 10.0
-    };
-    // ---- R
-    let r_dim = if thorough { 5 } else { 4 };
-    let (r, rejected) = part_readback(r_dim);
-    report_part(&mut rep, "R_readback", &r, json!({"max_dim": r_dim, "vectors": r.nodes, "rejected_by_store": rejected, "wall_s": lap()}));
-    if r.sparse_stored == 0 || r.dense_stored == 0 {
-        rep.machinery("vacuous: read-back did not reach both representations");
-    }
-    all.merge(r);
-
-    // ---- E: (world, sizes, queries)
-    let d_apis = vec![Api::Similar, Api::Metric(M::Cos), Api::Metric(M::Dot), Api::Metric(M::Euc), Api::Filtered(Filt::True, Strat::Auto)];
-    let n_apis = vec![Api::InColl, Api::FilteredColl(Filt::True, Strat::Pre), Api::FilteredColl(Filt::True, Strat::Auto)];
-    let mut e_plan: Vec<(World, usize, usize, bool)> = vec![]; // world, min size, max size, all queries?
-    if thorough {
-        e_plan.push((World::Default, 0, 3, true));
-        e_plan.push((World::Default, 4, 4, false));
-        for m in [M::Cos, M::Dot, M::Euc] {
-            e_plan.push((World::Named(m), 0, 2, true));
-            e_plan.push((World::Named(m), 3, 3, false));
-        }
-    } else {
-        e_plan.push((World::Default, 0, 2, true));
-        e_plan.push((World::Default, 3, 3, false));
-        for m in [M::Cos, M::Dot, M::Euc] {
-            e_plan.push((World::Named(m), 0, 2, false));
-        }
-    }
-    let mut e_nontrivial = 0;
-    let mut e_builds = 0;
-    for (w, lo, hi, allq) in e_plan {
-        let b = Battery { queries: if allq { all_q.clone() } else { few_q.clone() }, apis: if w == World::Default { d_apis.clone() } else { n_apis.clone() }, skip_failed_build: true };
-        let e = part_sets(&Ctx { part: "E", world: w, battery: &b }, &gridv, lo, hi);
-        report_part(&mut rep, &format!("E_sets_{}_size{}to{}", w.name().replace(':', "_"), lo, hi), &e, json!({"vector_alphabet": gridv.len(), "queries": b.queries.len(), "wall_s": lap()}));
-        e_nontrivial += e.nontrivial_states.len();
-        e_builds += e.builds_ok;
-        all.merge(e);
-    }
-    if e_nontrivial < 100 || e_builds < 100 {
-        rep.machinery("vacuous: part E reached too few non-trivial states");
-    }
-
-    // ---- S
-    let s_apis = vec![Api::Similar, Api::Metric(M::Dot), Api::Metric(M::Euc), Api::Filtered(Filt::True, Strat::Auto), Api::Filtered(Filt::TagX, Strat::Auto), Api::Filtered(Filt::TagX, Strat::Pre)];
-    let s_q = vec![v2(1, 0), v2(0, 1), v2(1, 1), v2(-1, 1), vec![1.0, 0.0, 0.0]];
-    let b = Battery { queries: s_q.clone(), apis: s_apis.clone(), skip_failed_build: false };
-    let s_depth = if thorough { 5 } else { 4 };
-    let mut alpha = alphabet_default(&KEYS[..2], false);
-    if thorough {
-        // depth 5 runs over 13 of the 15 ops; the two dropped ones stay in the depth-4 runs below
-        alpha.retain(|o| *o != Op::BatchDelete(KEYS[..2].to_vec()) && *o != Op::Store("b", vec![1.0, 0.0, 0.0]));
-        let full = alphabet_default(&KEYS[..2], false);
-        let s = explore(&Ctx { part: "S4", world: World::Default, battery: &b }, &full, 4);
-        report_part(&mut rep, "S_sequences_default_depth4_full_alphabet", &s, json!({"depth": 4, "alphabet": full.len(), "keys": 2, "wall_s": lap()}));
-        all.merge(s);
-    }
-    let s = explore(&Ctx { part: "S", world: World::Default, battery: &b }, &alpha, s_depth);
-    report_part(&mut rep, "S_sequences_default", &s, json!({"depth": s_depth, "alphabet": alpha.len(), "keys": 2, "queries": s_q.len(), "wall_s": lap()}));
-    if s.builds_ok == 0 || s.weak_checks == 0 || s.states.len() < 50 {
-        rep.machinery("vacuous: part S never searched through a cached index or reached too few states");
-    }
-    all.merge(s);
-    if thorough {
-        let alpha = alphabet_default(&KEYS[..2], true);
-        let s = explore(&Ctx { part: "S0", world: World::Default, battery: &b }, &alpha, 4);
-        report_part(&mut rep, "S_sequences_default_with_zero_vector", &s, json!({"depth": 4, "alphabet": alpha.len(), "keys": 2, "wall_s": lap()}));
-        all.merge(s);
-        let alpha = alphabet_default(&KEYS[..3], false);
-        let s = explore(&Ctx { part: "S3", world: World::Default, battery: &b }, &alpha, 4);
-        report_part(&mut rep, "S_sequences_default_3keys", &s, json!({"depth": 4, "alphabet": alpha.len(), "keys": 3, "wall_s": lap()}));
-        all.merge(s);
-    }
-
-    // ---- F
-    let fq = vec![v2(1, 0), v2(0, 1), v2(-1, 1)];
-    let f_depth = if thorough { 5 } else { 4 };
-    let alpha = alphabet_filter(&KEYS);
-    for w in [World::Default, World::Named(M::Cos)] {
-        let mut f_apis = vec![];
-        for fl in [Filt::TagX, Filt::True] {
-            for st in [Strat::Auto, Strat::Pre, Strat::Post] {
-                f_apis.push(if w == World::Default { Api::Filtered(fl, st) } else { Api::FilteredColl(fl, st) });
-            }
-        }
-        let b = Battery { queries: fq.clone(), apis: f_apis, skip_failed_build: false };
-        let f_depth = if w == World::Default { f_depth } else { 4 };
-        let f = explore(&Ctx { part: "F", world: w, battery: &b }, &alpha, f_depth);
-        report_part(&mut rep, &format!("F_filter_{}", w.name().replace(':', "_")), &f, json!({"depth": f_depth, "alphabet": alpha.len(), "keys": 4, "queries": fq.len(), "wall_s": lap()}));
-        all.merge(f);
-    }
-
-    // ---- C
-    let c_apis = vec![Api::InColl, Api::FilteredColl(Filt::True, Strat::Auto), Api::FilteredColl(Filt::TagX, Strat::Auto), Api::FilteredColl(Filt::TagX, Strat::Pre), Api::FilteredColl(Filt::TagX, Strat::Post)];
-    let c_q = vec![v2(1, 0), v2(0, 1), v2(-1, 1), vec![1.0, 0.0, 0.0]];
-    let b = Battery { queries: c_q.clone(), apis: c_apis, skip_failed_build: false };
-    let alpha = alphabet_named(&KEYS[..2]);
-    for m in [M::Cos, M::Dot, M::Euc] {
-        let depth = if thorough && m == M::Cos { 5 } else { 4 };
-        let c = explore(&Ctx { part: "C", world: World::Named(m), battery: &b }, &alpha, depth);
-        report_part(&mut rep, &format!("C_sequences_named_{}", m.name()), &c, json!({"depth": depth, "alphabet": alpha.len(), "keys": 2, "queries": c_q.len(), "wall_s": lap()}));
-        if c.builds_ok == 0 || c.weak_checks == 0 {
-            rep.machinery("vacuous: part C never searched through a cached index");
-        }
-        all.merge(c);
-    }
-
-    // ---- H
-    let (h2, h3) = if thorough { (5, 3) } else { (4, 2) };
-    let h = part_hnsw(h2, h3);
-    report_part(&mut rep, "H_hnsw_index", &h, json!({"max_inserts_dim2": h2, "max_inserts_dim3": h3, "wall_s": lap()}));
-    all.merge(h);
-
-    for (sig, (n, arts)) in &all.viol {
-        if *n > 0 && arts.is_empty() {
-            rep.machinery(format!("{n} cases of {sig} were seen on pooled engines only, none on a brand-new engine"));
-        }
-        for (_, msg, replay) in arts {
-            rep.violation(sig.clone(), msg.clone(), replay.clone());
-        }
-    }
-    rep.set("violating_cases_by_signature", json!(all.viol.iter().map(|(k, v)| (k.clone(), json!(v.0))).collect::<serde_json::Map<_, _>>()));
-    rep.set("nodes_not_confirmed_on_new_engine_by_signature", json!(all.unconfirmed));
-    rep.add("states", all.states.len() as u64);
-    rep.add("transitions", all.nodes);
-    rep.add("traces_validated_against_impl", all.nodes);
-    rep.add("evaluations", all.searches + all.readbacks);
-    rep.add("distinct_nontrivial", all.nontrivial_states.len() as u64);
-    rep.set("explanation", json!("no separate model: every op and every search ran the real VectorEngine/HNSWIndex; reference = BTreeMap of stored vectors + f64 score recomputation"));
+    // the harness runs on a pool of its own: every node waits for a thread of its own, and the engine's parallel paths
+    // (rayon's global pool) must find free workers while all harness workers wait
+    let pool = rayon::ThreadPoolBuilder::new().num_threads(std::thread::available_parallelism().map_or(16, usize::from)).build().expect("harness thread pool");
+    pool.install(|| explore_all(&mut rep, thorough));
     rep.finish();
 }
